@@ -5,9 +5,11 @@ _CLS = {}
 
 
 def cls_for(sep):
-    if sep not in _CLS:
-        _CLS[sep] = type("SepNode", (AnyNode,), {"separator": sep})
-    return _CLS[sep]
+    import implutil
+    key = (sep, implutil.ADV)
+    if key not in _CLS:
+        _CLS[key] = type("SepNode", (implutil.adv(AnyNode),), {"separator": sep})
+    return _CLS[key]
 
 
 def build(t, names, cls, attr, parent=None, nodes=None, pos=()):
